@@ -472,5 +472,524 @@ theorem value_var {T : PrecTables} (hT : NoIdentOps T) : ∀ n : Nat,
           cases hv
       · simp only [mkErr] at h; cases h
 
+/-! ### the CREATE TABLE path: a successful run is a successful run on the variant, with the same value -/
+
+set_option hygiene false in
+/-- one `try!` step of a run `h : (match F s with | ok a s => … | err … | fuel …) = ok v s'`: the step succeeded; the
+transfer lemma gives the step on the variant, which is rewritten in the goal -/
+macro "vstep " a:ident s1:ident t1:ident st1:ident " := " lem:term : tactic => `(tactic| (
+  split at h
+  rotate_left
+  · cases h
+  · cases h
+  rename_i $a:ident $s1:ident hq
+  obtain ⟨$t1, g1, $st1⟩ := $lem hq
+  simp only [g1]
+  clear g1))
+
+theorem parseRegexMode_var (hst : StV p2 p1 s s₂) {m : PRegexMode} {s' : PSt} (h : parseRegexMode s = .ok m s') :
+    ∃ s₂', parseRegexMode s₂ = .ok m s₂' ∧ RelV s' s₂' := by
+  unfold parseRegexMode at h ⊢
+  split at h
+  · rename_i i hi
+    obtain ⟨j, hj, hl, _⟩ := hst.tok_ident hi
+    simp only [hj, hl]
+    split at h
+    · rename_i hc
+      simp only [hc, if_true]
+      vstep u s1 t1 st1 := hst.step
+      cases h
+      exact ⟨_, rfl, st1.rel⟩
+    · rename_i hc
+      simp only [hc, if_false]
+      split at h
+      · rename_i hc2
+        simp only [hc2, if_true]
+        vstep u s1 t1 st1 := hst.step
+        cases h
+        exact ⟨_, rfl, st1.rel⟩
+      · rename_i hc2
+        simp only [hc2, if_false]
+        cases h
+        exact ⟨_, rfl, hst.rel⟩
+  · rename_i hno
+    cases h
+    rw [hst.tok_nonident (fun n hn => hno n hn)]
+    split
+    · rename_i i hi; exact absurd hi (hno i)
+    · exact ⟨_, rfl, hst.rel⟩
+
+theorem typeBrackets_var : ∀ (fuel k : Nat) {p2 p1 : Tok} {s s₂ : PSt}, StV p2 p1 s s₂ → ∀ {r : Nat} {s' : PSt},
+    typeBrackets fuel k s = .ok r s' → ∃ s₂', typeBrackets fuel k s₂ = .ok r s₂' ∧ RelV s' s₂' := by
+  intro fuel
+  induction fuel with
+  | zero => intro k p2 p1 s s₂ _ r s' h; rw [typeBrackets] at h; cases h
+  | succ n ih =>
+    intro k p2 p1 s s₂ hst r s' h
+    rw [typeBrackets] at h ⊢
+    simp only [hst.tok_eq (X := .lsq) (by simp)]
+    split at h
+    · rename_i hc
+      simp only [hc, if_true]
+      vstep u s1 t1 st1 := hst.step
+      vstep u2 s2 t2 st2 := expectConsume_var .rsq _ (by simp) st1
+      exact ih _ st2 h
+    · rename_i hc
+      simp only [hc, if_false]
+      cases h
+      exact ⟨_, rfl, hst.rel⟩
+
+theorem parseType_var (fuel : Nat) (hst : StV p2 p1 s s₂) {t : VType} {s' : PSt} (h : parseType fuel s = .ok t s') :
+    ∃ s₂', parseType fuel s₂ = .ok t s₂' ∧ RelV s' s₂' := by
+  unfold parseType at h ⊢
+  dsimp only at h ⊢
+  split at h
+  rotate_left
+  · cases h
+  · cases h
+  rename_i name s1 hq
+  obtain ⟨m, t1, g1, hl, st1⟩ := consumeIdentifier_var' hst hq
+  simp only [g1]
+  split at h
+  rotate_left
+  · cases h
+  · cases h
+  rename_i k s2 hq2
+  obtain ⟨t2, g2, r2⟩ := typeBrackets_var fuel 0 st1 hq2
+  simp only [g2, hl]
+  split at h
+  · rename_i vt hvt
+    cases h
+    exact ⟨_, rfl, r2⟩
+  · cases h
+
+set_option hygiene false in
+/-- `vstep` for a transfer lemma that concludes `RelV` -/
+macro "vstepr " a:ident s1:ident t1:ident st1:ident " := " lem:term : tactic => `(tactic| (
+  split at h
+  rotate_left
+  · cases h
+  · cases h
+  rename_i $a:ident $s1:ident hq
+  obtain ⟨$t1, g1, _, _, $st1⟩ := $lem hq
+  simp only [g1]
+  clear g1))
+
+theorem parseDefineColumn_var {T : PrecTables} (hT : NoIdentOps T) (fuel : Nat) (parsing : PColParsing)
+    (hst : StV p2 p1 s s₂) (hc : caseFreeAfter p2 p1 = false) {c : PColDef} {s' : PSt}
+    (h : parseDefineColumn T fuel parsing s = .ok c s') :
+    ∃ s₂', parseDefineColumn T fuel parsing s₂ = .ok c s₂' ∧ RelV s' s₂' := by
+  unfold parseDefineColumn at h ⊢
+  vstep name s1 t1 st1 := consumeIdentifier_var hst hc
+  vstepr ty s2 t2 st2 := parseType_var fuel st1
+  dsimp only at h ⊢
+  split at h
+  · -- NOT NULL
+    rename_i heq
+    rw [st2.tok_nonident (by rw [heq]; simp), heq]
+    dsimp only
+    vstep u3 s3 t3 st3 := st2.step
+    vstep u4 s4 t4 st4 := expectConsume_var .null _ (by simp) st3
+    cases h
+    exact ⟨_, rfl, st4.rel⟩
+  · -- DEFAULT literal
+    rename_i heq
+    rw [st2.tok_nonident (by rw [heq]; simp), heq]
+    dsimp only
+    vstep u3 s3 t3 st3 := st2.step
+    split at h
+    rotate_left
+    · cases h
+    · cases h
+    rename_i e s4 hq
+    split at h
+    · rename_i l v
+      obtain ⟨t4, g4, _, _, st4⟩ := (value_var hT fuel).2.2 _ _ _ _ _ _ st3 rfl hq
+      simp only [g4]
+      split at h
+      · rename_i vt hvt
+        split at h
+        · simp only [mkErr] at h; cases h
+        · rename_i hne
+          simp only [hne, if_false]
+          cases h
+          exact ⟨_, rfl, st4.rel⟩
+      · cases h
+        exact ⟨_, rfl, st4.rel⟩
+    · simp only [mkErr] at h; cases h
+  · -- an option
+    rename_i i heq
+    obtain ⟨j, hj, hl, _⟩ := st2.tok_ident heq
+    simp only [hj, hl]
+    split at h
+    · rename_i c1
+      simp only [c1, if_true]
+      split at h
+      · simp only [mkErr] at h; cases h
+      · rename_i c2
+        simp only [c2, if_false]
+        vstep u3 s3 t3 st3 := st2.step
+        cases h
+        exact ⟨_, rfl, st3.rel⟩
+    · rename_i c1
+      simp only [c1, if_false]
+      split at h
+      · rename_i c2
+        simp only [c2, if_true]
+        vstep u3 s3 t3 st3 := st2.step
+        cases h
+        exact ⟨_, rfl, st3.rel⟩
+      · rename_i c2
+        simp only [c2, if_false]
+        split at h
+        · rename_i c3
+          simp only [c3, if_true]
+          vstep u3 s3 t3 st3 := st2.step
+          cases h
+          exact ⟨_, rfl, st3.rel⟩
+        · rename_i c3
+          simp only [c3, if_false]
+          cases h
+          exact ⟨_, rfl, st2.rel⟩
+  · -- no option
+    rename_i h1 h2 h3
+    cases h
+    rw [st2.tok_nonident (fun n hn => h3 n hn)]
+    split
+    · rename_i hx; exact absurd hx h1
+    · rename_i hx; exact absurd hx h2
+    · rename_i i hx; exact absurd hx (h3 i)
+    · exact ⟨_, rfl, st2.rel⟩
+
+theorem refLoop_var : ∀ (fuel : Nat) (acc : List PRegexRef) {p2 p1 : Tok} {s s₂ : PSt}, StV p2 p1 s s₂ → s.cur.tok = .comma →
+    ∀ {r : List PRegexRef} {s' : PSt}, refLoop fuel acc s = .ok r s' → ∃ s₂', refLoop fuel acc s₂ = .ok r s₂' ∧ RelV s' s₂' := by
+  intro fuel
+  induction fuel with
+  | zero => intro acc p2 p1 s s₂ _ _ r s' h; rw [refLoop] at h; cases h
+  | succ n ih =>
+    intro acc p2 p1 s s₂ hst hcm r s' h
+    rw [refLoop] at h ⊢
+    vstep u1 s1 t1 st1 := hst.step
+    rw [hcm] at st1
+    vstep name s2 t2 st2 := consumeIdentifier_var st1 (by simp [caseFreeAfter, Tok.isIdent])
+    vstep u3 s3 t3 st3 := expectConsume_var .lsq _ (by simp) st2
+    vstep g s4 t4 st4 := consumeInt_var st3
+    vstep u5 s5 t5 st5 := expectConsume_var .rsq _ (by simp) st4
+    dsimp only at h ⊢
+    simp only [st5.tok_eq (X := .rarrow) (by simp), st5.tok_eq (X := .comma) (by simp)]
+    split at h
+    · rename_i c1
+      simp only [c1, if_true]
+      cases h
+      exact ⟨_, rfl, st5.rel⟩
+    · rename_i c1
+      simp only [c1, if_false]
+      split at h
+      · rename_i c2
+        simp only [c2, if_true]
+        exact ih _ st5 c2 h
+      · simp only [mkErr] at h; cases h
+
+theorem optRefs_var (fuel : Nat) (first : PRegexRef) (hst : StV p2 p1 s s₂) {r : List PRegexRef} {s' : PSt}
+    (h : optRefs fuel first s = .ok r s') : ∃ s₂', optRefs fuel first s₂ = .ok r s₂' ∧ RelV s' s₂' := by
+  unfold optRefs at h ⊢
+  simp only [hst.tok_eq (X := .comma) (by simp)]
+  split at h
+  · rename_i c1
+    simp only [c1, if_true]
+    exact refLoop_var fuel _ hst c1 h
+  · rename_i c1
+    simp only [c1, if_false]
+    cases h
+    exact ⟨_, rfl, hst.rel⟩
+
+theorem jsonLoop_var : ∀ (fuel : Nat) (acc : List PJsonStep) {p2 p1 : Tok} {s s₂ : PSt}, StV p2 p1 s s₂ →
+    ∀ {r : List PJsonStep} {s' : PSt}, jsonLoop fuel acc s = .ok r s' → ∃ s₂', jsonLoop fuel acc s₂ = .ok r s₂' ∧ RelV s' s₂' := by
+  intro fuel
+  induction fuel with
+  | zero => intro acc p2 p1 s s₂ _ r s' h; rw [jsonLoop] at h; cases h
+  | succ n ih =>
+    intro acc p2 p1 s s₂ hst r s' h
+    rw [jsonLoop] at h ⊢
+    simp only [hst.tok_eq (X := .op (.single '.')) (by simp), hst.tok_eq (X := .lsq) (by simp),
+      hst.tok_eq (X := .rcu) (by simp)]
+    split at h
+    · rename_i c1
+      simp only [c1, if_true]
+      vstep u1 s1 t1 st1 := hst.step
+      rw [c1] at st1
+      vstep name s2 t2 st2 := consumeIdentifier_var st1 (by simp [caseFreeAfter, Tok.isIdent])
+      exact ih _ st2 h
+    · rename_i c1
+      simp only [c1, if_false]
+      split at h
+      · rename_i c2
+        simp only [c2, if_true]
+        vstep u1 s1 t1 st1 := hst.step
+        vstep i s2 t2 st2 := consumeInt_var st1
+        vstep u3 s3 t3 st3 := expectConsume_var .rsq _ (by simp) st2
+        exact ih _ st3 h
+      · rename_i c2
+        simp only [c2, if_false]
+        split at h
+        · rename_i c3
+          simp only [c3, if_true]
+          vstep u1 s1 t1 st1 := hst.step
+          cases h
+          exact ⟨_, rfl, st1.rel⟩
+        · simp only [mkErr] at h; cases h
+
+theorem colItem_var {T : PrecTables} (hT : NoIdentOps T) (fuel : Nat) (ps : Patterns) (cs : List PColDef)
+    (hst : StV p2 p1 s s₂) (hc : caseFreeAfter p2 p1 = false) {r : Option (Patterns × List PColDef)} {s' : PSt}
+    (h : colItem T fuel ps cs s = .ok r s') : ∃ s₂', colItem T fuel ps cs s₂ = .ok r s₂' ∧ RelV s' s₂' := by
+  unfold colItem at h ⊢
+  split at h
+  · -- a pattern definition, or a column read from pattern groups
+    rename_i pn heq
+    obtain ⟨j, hj, _, hjn⟩ := hst.tok_ident heq
+    rw [hjn hc] at hj
+    rw [hj]
+    dsimp only
+    vstep u1 s1 t1 st1 := hst.step
+    simp only [st1.tok_eq (X := .op (.single '=')) (by simp), st1.tok_eq (X := .lsq) (by simp)]
+    split at h
+    · rename_i c1
+      simp only [c1, if_true]
+      vstep u2 s2 t2 st2 := st1.step
+      vstepr mode s3 t3 st3 := parseRegexMode_var st2
+      vstep pat s4 t4 st4 := consumeString_var st3
+      cases h
+      exact ⟨_, rfl, st4.rel⟩
+    · rename_i c1
+      simp only [c1, if_false]
+      split at h
+      · rename_i c2
+        simp only [c2, if_true]
+        vstep u2 s2 t2 st2 := st1.step
+        vstep g s3 t3 st3 := consumeInt_var st2
+        vstep u4 s4 t4 st4 := expectConsume_var .rsq _ (by simp) st3
+        vstepr refs s5 t5 st5 := optRefs_var fuel _ st4
+        vstep u6 s6 t6 st6 := expectConsume_var .rarrow _ (by simp) st5
+        vstepr col s7 t7 st7 := parseDefineColumn_var hT fuel _ st6 (by simp [caseFreeAfter, Tok.isIdent])
+        cases h
+        exact ⟨_, rfl, st7.rel⟩
+      · simp only [mkErr] at h; cases h
+  · -- a column with its own pattern
+    rename_i pat heq
+    rw [hst.tok_nonident (by rw [heq]; simp), heq]
+    dsimp only
+    vstep u1 s1 t1 st1 := hst.step
+    vstep u2 s2 t2 st2 := expectConsume_var .rarrow _ (by simp) st1
+    vstepr col s3 t3 st3 := parseDefineColumn_var hT fuel _ st2 (by simp [caseFreeAfter, Tok.isIdent])
+    cases h
+    exact ⟨_, rfl, st3.rel⟩
+  · -- a JSON column
+    rename_i heq
+    rw [hst.tok_nonident (by rw [heq]; simp), heq]
+    dsimp only
+    vstep u1 s1 t1 st1 := hst.step
+    vstepr parts s2 t2 st2 := jsonLoop_var fuel [] st1
+    vstep u3 s3 t3 st3 := expectConsume_var .rarrow _ (by simp) st2
+    split at h
+    · simp only [mkErr] at h; cases h
+    · rename_i c1
+      simp only [c1]
+      vstepr col s4 t4 st4 := parseDefineColumn_var hT fuel _ st3 (by simp [caseFreeAfter, Tok.isIdent])
+      cases h
+      exact ⟨_, rfl, st4.rel⟩
+  · -- `)`
+    rename_i heq
+    rw [hst.tok_nonident (by rw [heq]; simp), heq]
+    dsimp only
+    vstep u1 s1 t1 st1 := hst.step
+    cases h
+    exact ⟨_, rfl, st1.rel⟩
+  · simp only [mkErr] at h; cases h
+
+theorem colLoop_var {T : PrecTables} (hT : NoIdentOps T) : ∀ (fuel : Nat) (ps : Patterns) (cs : List PColDef)
+    {p2 p1 : Tok} {s s₂ : PSt}, StV p2 p1 s s₂ → caseFreeAfter p2 p1 = false → ∀ {r : Patterns × List PColDef} {s' : PSt},
+    colLoop T fuel ps cs s = .ok r s' → ∃ s₂', colLoop T fuel ps cs s₂ = .ok r s₂' ∧ RelV s' s₂' := by
+  intro fuel
+  induction fuel with
+  | zero => intro ps cs p2 p1 s s₂ _ _ r s' h; rw [colLoop] at h; cases h
+  | succ n ih =>
+    intro ps cs p2 p1 s s₂ hst hc r s' h
+    rw [colLoop] at h ⊢
+    vstepr it s1 t1 st1 := colItem_var hT n ps cs hst hc
+    split at h
+    · cases h
+      exact ⟨_, rfl, st1.rel⟩
+    · rename_i pc
+      simp only [st1.tok_eq (X := .comma) (by simp), st1.tok_eq (X := .rp) (by simp)]
+      split at h
+      · rename_i c1
+        simp only [c1, if_true]
+        vstep u2 s2 t2 st2 := st1.step
+        rw [c1] at st2
+        exact ih _ _ st2 (by simp [caseFreeAfter, Tok.isIdent]) h
+      · rename_i c1
+        simp only [c1, if_false]
+        split at h
+        · rename_i c2
+          simp only [c2, if_true]
+          vstep u2 s2 t2 st2 := st1.step
+          cases h
+          exact ⟨_, rfl, st2.rel⟩
+        · simp only [mkErr] at h; cases h
+
+theorem parseCreateTable_var {T : PrecTables} (hT : NoIdentOps T) (fuel : Nat) (hst : StV p2 p1 s s₂) {c : PCreate} {s' : PSt}
+    (h : parseCreateTable T fuel s = .ok c s') : ∃ s₂', parseCreateTable T fuel s₂ = .ok c s₂' ∧ RelV s' s₂' := by
+  unfold parseCreateTable at h ⊢
+  dsimp only at h ⊢
+  vstep u1 s1 t1 st1 := hst.step
+  vstep u2 s2 t2 st2 := expectConsume_var (.kw .table) _ (by simp) st1
+  vstep name s3 t3 st3 := consumeIdentifier_var st2 (by simp [caseFreeAfter, Tok.isIdent])
+  vstep u4 s4 t4 st4 := expectConsume_var .lp _ (by simp) st3
+  vstepr pc s5 t5 st5 := colLoop_var hT fuel [] [] st4 (by simp [caseFreeAfter, Tok.isIdent])
+  vstep u6 s6 t6 st6 := expectConsume_var .semi _ (by simp) st5
+  cases h
+  rw [hst.loc, st6.loc]
+  exact ⟨_, rfl, st6.rel⟩
+
+theorem multiCreateLoop_var {T : PrecTables} (hT : NoIdentOps T) : ∀ (fuel : Nat) (acc : List PCreate)
+    {p2 p1 : Tok} {s s₂ : PSt}, StV p2 p1 s s₂ → ∀ {op : POp} {s' : PSt},
+    multiCreateLoop T fuel acc s = .ok op s' → ∃ s₂', multiCreateLoop T fuel acc s₂ = .ok op s₂' ∧ RelV s' s₂' := by
+  intro fuel
+  induction fuel with
+  | zero => intro acc p2 p1 s s₂ _ op s' h; rw [multiCreateLoop] at h; cases h
+  | succ n ih =>
+    intro acc p2 p1 s s₂ hst op s' h
+    rw [multiCreateLoop] at h ⊢
+    vstepr c s1 t1 st1 := parseCreateTable_var hT n hst
+    dsimp only at h ⊢
+    simp only [ne_eq, st1.tok_eq (X := .kw .create) (by simp)]
+    simp only [ne_eq] at h
+    split at h
+    · rename_i c1
+      simp only [c1, not_false_eq_true, if_true]
+      cases h
+      exact ⟨_, rfl, st1.rel⟩
+    · rename_i c1
+      simp only [c1, if_false]
+      exact ih _ st1 h
+
+theorem optSemi_var (hst : StV p2 p1 s s₂) {u : Unit} {s' : PSt} (h : optSemi s = .ok u s') :
+    ∃ s₂', optSemi s₂ = .ok () s₂' ∧ RelV s' s₂' := by
+  unfold optSemi at h ⊢
+  simp only [hst.tok_eq (X := .semi) (by simp)]
+  split at h
+  · rename_i c1
+    simp only [c1, if_true]
+    obtain ⟨t1, g1, st1⟩ := hst.step h
+    exact ⟨t1, g1, st1.rel⟩
+  · rename_i c1
+    simp only [c1, if_false]
+    cases h
+    exact ⟨_, rfl, hst.rel⟩
+
+/-- `Parser::parse` behind its first `next()`, on a state that starts with CREATE -/
+theorem parseOp_create_var {T : PrecTables} (hT : NoIdentOps T) (fuel : Nat) (hst : StV p2 p1 s s₂)
+    (hcr : s.cur.tok = .kw .create) {op : POp} {s' : PSt} (h : parseOp T fuel s = .ok op s') :
+    ∃ s₂', parseOp T fuel s₂ = .ok op s₂' := by
+  have hcr2 : s₂.cur.tok = .kw .create := by rw [hst.tok_nonident (by rw [hcr]; simp), hcr]
+  unfold parseOp parseStatement at h ⊢
+  have hne : (Tok.kw Keyword.create = Tok.kw Keyword.select) = False := by simp
+  simp only [hcr, hcr2, ne_eq, not_true_eq_false, and_false, if_false, hne] at h ⊢
+  split at h
+  · cases h
+  · rename_i op1 s1 hq
+    obtain ⟨t1, g1, _, _, st1⟩ := multiCreateLoop_var hT fuel [] hst hq
+    simp only [g1]
+    vstepr u2 s2 t2 st2 := optSemi_var st1
+    rw [st2.rest_isEmpty]
+    split at h
+    · rename_i c1
+      simp only [c1, if_true]
+      cases h
+      exact ⟨_, rfl⟩
+    · simp only [mkErr] at h; cases h
+  · exfalso
+    repeat' split at h
+    all_goals cases h
+
+theorem caseVariantFrom_length : ∀ (as bs : List PTok) (p2 p1 : Tok), caseVariantFrom p2 p1 as bs = true → bs.length = as.length
+  | [], [], _, _, _ => rfl
+  | [], _ :: _, _, _, h => by simp [caseVariantFrom] at h
+  | _ :: _, [], _, _, h => by simp [caseVariantFrom] at h
+  | a :: as, b :: bs, p2, p1, h => by
+    simp only [caseVariantFrom, Bool.and_eq_true] at h
+    simp [caseVariantFrom_length as bs _ _ h.2]
+
+/-- **`Parser::parse` reads a case variant of a CREATE TABLE token vector as the same tree** (fuel as given) -/
+theorem parseTokensFuel_create_var {T : PrecTables} (hT : NoIdentOps T) (fuel : Nat) {toks toks₂ : List PTok}
+    (hv : caseVariantFrom .eof .eof toks toks₂ = true) (hcr : toks.head?.map (·.tok) = some (.kw .create)) {t : POp}
+    (h : parseTokensFuel T fuel toks = .tree t) : parseTokensFuel T fuel toks₂ = .tree t := by
+  cases toks with
+  | nil => simp at hcr
+  | cons a as =>
+    cases toks₂ with
+    | nil => simp [caseVariantFrom] at hv
+    | cons b bs =>
+      have hst : StV .eof .eof ⟨a, as⟩ ⟨b, bs⟩ := hv
+      unfold parseTokensFuel at h ⊢
+      dsimp only at h ⊢
+      split at h
+      · rename_i op s1 hq
+        cases h
+        obtain ⟨t1, g1⟩ := parseOp_create_var hT fuel hst (by simpa using hcr) hq
+        simp only [g1]
+      · cases h
+      · cases h
+
+theorem parseTokens_create_var {T : PrecTables} (hT : NoIdentOps T) {toks toks₂ : List PTok}
+    (hv : caseVariantFrom .eof .eof toks toks₂ = true) (hcr : toks.head?.map (·.tok) = some (.kw .create)) {t : POp}
+    (h : parseTokens T toks = .tree t) : parseTokens T toks₂ = .tree t := by
+  unfold parseTokens at h ⊢
+  rw [caseVariantFrom_length _ _ _ _ hv]
+  exact parseTokensFuel_create_var hT _ hv hcr h
+
+/-! ### the relation is symmetric -/
+
+/-- equal, or both identifiers -/
+def Tok.shapeEq (a b : Tok) : Prop := a = b ∨ (a.isIdent = true ∧ b.isIdent = true)
+
+theorem isIdent_iff {a : Tok} : a.isIdent = true ↔ ∃ i, a = .ident i := by
+  cases a <;> simp [Tok.isIdent]
+
+theorem caseFreeAfter_congr {p2 p1 q2 q1 : Tok} (h2 : Tok.shapeEq p2 q2) (h1 : Tok.shapeEq p1 q1) :
+    caseFreeAfter p2 p1 = caseFreeAfter q2 q1 := by
+  rcases h1 with rfl | ⟨a1, b1⟩
+  · rcases h2 with rfl | ⟨a2, b2⟩
+    · rfl
+    · obtain ⟨i, rfl⟩ := isIdent_iff.mp a2
+      obtain ⟨j, rfl⟩ := isIdent_iff.mp b2
+      simp [caseFreeAfter, Tok.isIdent]
+  · obtain ⟨i, rfl⟩ := isIdent_iff.mp a1
+    obtain ⟨j, rfl⟩ := isIdent_iff.mp b1
+    rcases h2 with rfl | ⟨a2, b2⟩
+    · simp [caseFreeAfter, Tok.isIdent]
+    · obtain ⟨i2, rfl⟩ := isIdent_iff.mp a2
+      obtain ⟨j2, rfl⟩ := isIdent_iff.mp b2
+      simp [caseFreeAfter, Tok.isIdent]
+
+theorem Tok.caseVar_symm {f : Bool} {a b : Tok} (h : Tok.caseVar f a b = true) :
+    Tok.caseVar f b a = true ∧ Tok.shapeEq a b := by
+  rcases Tok.caseVar_cases h with rfl | ⟨hf, i, j, rfl, rfl, hl⟩
+  · exact ⟨by simp [Tok.caseVar], .inl rfl⟩
+  · exact ⟨by simp [Tok.caseVar, Tok.sameLower, hf, hl], .inr ⟨rfl, rfl⟩⟩
+
+theorem caseVariantFrom_symm : ∀ (as bs : List PTok) (p2 p1 q2 q1 : Tok), Tok.shapeEq p2 q2 → Tok.shapeEq p1 q1 →
+    caseVariantFrom p2 p1 as bs = true → caseVariantFrom q2 q1 bs as = true
+  | [], [], _, _, _, _, _, _, _ => rfl
+  | [], _ :: _, _, _, _, _, _, _, h => by simp [caseVariantFrom] at h
+  | _ :: _, [], _, _, _, _, _, _, h => by simp [caseVariantFrom] at h
+  | a :: as, b :: bs, p2, p1, q2, q1, h2, h1, h => by
+    simp only [caseVariantFrom, Bool.and_eq_true, decide_eq_true_eq] at h ⊢
+    obtain ⟨⟨hl, hv⟩, hr⟩ := h
+    obtain ⟨hv', hs⟩ := Tok.caseVar_symm hv
+    refine ⟨⟨hl.symm, ?_⟩, caseVariantFrom_symm as bs _ _ _ _ h1 hs hr⟩
+    rw [← caseFreeAfter_congr h2 h1]
+    exact hv'
+
 end Parse
 end Sqlgrep
